@@ -279,7 +279,7 @@ def prune_cache():
 def run_harness(binary, args, timeout=1800):
     p = subprocess.run([binary] + args, capture_output=True, text=True, timeout=timeout, env=goenv())
     if p.returncode not in (0,):
-        raise Infra("harness %s failed rc=%d\n%s\n%s" % (" ".join(args[:3]), p.returncode, p.stdout[-3000:], p.stderr[-3000:]))
+        raise Infra("harness %s failed rc=%d\n%s\n%s\n[...]\n%s" % (" ".join(args[:3]), p.returncode, p.stdout[-3000:], p.stderr[:3000], p.stderr[-1500:]))
     return p.stdout
 
 
